@@ -156,12 +156,28 @@ func sxToTerm(s *sx, so *Sort) (*Term, error) {
 
 const replayRefBase = 7000000
 
+// nilIfaces replaces every interface-valued component of a ground value by nil.
+func nilIfaces(t *Term) *Term {
+	if t.Sort == SIface {
+		return zeroTerm(SIface)
+	}
+	if t.Op == "mk" {
+		args := make([]*Term, len(t.Args))
+		for i, a := range t.Args {
+			args[i] = nilIfaces(a)
+		}
+		return Mk(t.Sort, args...)
+	}
+	return t
+}
+
 // Go literal generation -------------------------------------------------------
 
 type litGen struct {
 	own     *types.Package
 	imports map[string]string
 	heapVal func(cell *Sort, ref *Term) (*Term, error)
+	elemVal func(arrSort *Sort, ref *Term, idx int64) (*Term, error)
 	depth   int
 }
 
@@ -226,6 +242,9 @@ func (g *litGen) lit(t *Term, T types.Type) (string, error) {
 			fs = append(fs, f.Name()+": "+s)
 		}
 		return g.typeStr(T) + "{" + strings.Join(fs, ", ") + "}", nil
+	case *types.Interface:
+		// interface values cannot be built from a model; nil is used (the caller normalises the model accordingly)
+		return "(" + g.typeStr(T) + ")(nil)", nil
 	case *types.Pointer:
 		if t.IsInt() && t.Int.Sign() == 0 {
 			return "(" + g.typeStr(T) + ")(nil)", nil
@@ -246,6 +265,39 @@ func (g *litGen) lit(t *Term, T types.Type) (string, error) {
 			return "", err
 		}
 		return "&" + s, nil
+	case *types.Slice:
+		if t.Op != "mk" || !t.Args[2].IsInt() || !t.Args[1].IsInt() {
+			return "", fmt.Errorf("non-literal slice header")
+		}
+		n := t.Args[2].Int64()
+		if t.Args[0].IsInt() && t.Args[0].Int.Sign() == 0 && n == 0 {
+			return "(" + g.typeStr(T) + ")(nil)", nil
+		}
+		if n > 24 || g.heapVal == nil {
+			return "", fmt.Errorf("slice of length %d", n)
+		}
+		arrSort := ArraySort(SInt, sortOf(u.Elem()))
+		arr, err := g.heapVal(arrSort, t.Args[0])
+		if err != nil {
+			return "", err
+		}
+		var es []string
+		for i := int64(0); i < n; i++ {
+			e := Select(arr, IntLit(t.Args[1].Int64()+i))
+			if !e.ground {
+				var err error
+				e, err = g.elemVal(arrSort, t.Args[0], t.Args[1].Int64()+i)
+				if err != nil {
+					return "", err
+				}
+			}
+			s, err := g.lit(e, u.Elem())
+			if err != nil {
+				return "", err
+			}
+			es = append(es, s)
+		}
+		return g.typeStr(T) + "{" + strings.Join(es, ", ") + "}", nil
 	case *types.Array:
 		var es []string
 		for i := int64(0); i < u.Len(); i++ {
@@ -415,6 +467,7 @@ func tryReplay(P *Program, v *Verifier, ob *Obligation) *ReplayResult {
 				rr.Note = "model value of " + p.Name() + ": " + err.Error()
 				return rr
 			}
+			t = nilIfaces(t)
 			vals[p] = t
 			rr.Inputs[p.Name()] = t.String()
 		}
@@ -439,6 +492,12 @@ func tryReplay(P *Program, v *Verifier, ob *Obligation) *ReplayResult {
 			heapCache[k] = t
 			return t, nil
 		}
+		if cell.Kind == KArray {
+			// element-wise on demand
+			t := Var(fmt.Sprintf("arrcell!%s!%s", sanitize(hn), sanitize(ref.String())), cell)
+			heapCache[k] = t
+			return t, nil
+		}
 		e := "(select " + smtName(hn) + " " + ref.String() + ")"
 		got, err := getValue([]string{e})
 		if err != nil {
@@ -448,8 +507,26 @@ func tryReplay(P *Program, v *Verifier, ob *Obligation) *ReplayResult {
 		if err != nil {
 			return nil, err
 		}
+		t = nilIfaces(t)
 		heapCache[k] = t
 		rr.Inputs["*"+ref.String()+":"+cell.Name] = t.String()
+		return t, nil
+	}
+	gen.elemVal = func(arrSort *Sort, ref *Term, idx int64) (*Term, error) {
+		hn := heapName(arrSort) + "@0"
+		if !strings.Contains(text, smtName(hn)) {
+			return zeroTerm(arrSort.Elem), nil
+		}
+		e := fmt.Sprintf("(select (select %s %s) %d)", smtName(hn), ref.String(), idx)
+		got, err := getValue([]string{e})
+		if err != nil {
+			return nil, err
+		}
+		t, err := sxToTerm(got[e], arrSort.Elem)
+		if err != nil {
+			return nil, err
+		}
+		rr.Inputs[fmt.Sprintf("%s[%d]", ref.String(), idx)] = t.String()
 		return t, nil
 	}
 	var args []string
@@ -462,12 +539,17 @@ func tryReplay(P *Program, v *Verifier, ob *Obligation) *ReplayResult {
 		args = append(args, s)
 	}
 	call := ""
-	if fn.Signature.Recv() != nil {
-		call = "(" + args[0] + ")." + fn.Name() + "(" + strings.Join(args[1:], ", ") + ")"
-	} else {
-		call = fn.Name() + "(" + strings.Join(args, ", ") + ")"
+	var anames []string
+	for i := range args {
+		anames = append(anames, fmt.Sprintf("a%d", i))
 	}
-	rr.Call = call
+	if fn.Signature.Recv() != nil {
+		call = "(a0)." + fn.Name() + "(" + strings.Join(anames[1:], ", ") + ")"
+		rr.Call = "(" + args[0] + ")." + fn.Name() + "(" + strings.Join(args[1:], ", ") + ")"
+	} else {
+		call = fn.Name() + "(" + strings.Join(anames, ", ") + ")"
+		rr.Call = fn.Name() + "(" + strings.Join(args, ", ") + ")"
+	}
 	nres := fn.Signature.Results().Len()
 	var lhs []string
 	for i := 0; i < nres; i++ {
@@ -484,6 +566,9 @@ func tryReplay(P *Program, v *Verifier, ob *Obligation) *ReplayResult {
 		fmt.Fprintf(&src, "\t%s %q\n", gen.imports[p], p)
 	}
 	fmt.Fprintf(&src, ")\n\nvar _ = strconv.Quote\nvar _ = strings.Join\n\nfunc TestGovcReplay(t *testing.T) {\n\tdefer func() {\n\t\tif r := recover(); r != nil {\n\t\t\tfmt.Printf(\"GOVC-PANIC %%v\\n\", r)\n\t\t}\n\t}()\n")
+	for i, a := range args {
+		fmt.Fprintf(&src, "\ta%d := %s\n\t_ = a%d\n", i, a, i)
+	}
 	if nres > 0 {
 		fmt.Fprintf(&src, "\t%s := %s\n", strings.Join(lhs, ", "), call)
 		for i := range lhs {
@@ -491,6 +576,13 @@ func tryReplay(P *Program, v *Verifier, ob *Obligation) *ReplayResult {
 		}
 	} else {
 		fmt.Fprintf(&src, "\t%s\n", call)
+	}
+	for i, p := range fn.Params {
+		if pt, ok := p.Type().Underlying().(*types.Pointer); ok {
+			if _, isStruct := pt.Elem().Underlying().(*types.Struct); isStruct && vals[p].IsInt() && vals[p].Int.Sign() != 0 {
+				fmt.Fprintf(&src, "\tfmt.Printf(\"GOVC-PCELL %s %s %%s\\n\", govcSMT(reflect.ValueOf(a%d).Elem()))\n", vals[p].Int.String(), sortOf(pt.Elem()).Name, i)
+			}
+		}
 	}
 	fmt.Fprintf(&src, "\tfmt.Println(\"GOVC-DONE\")\n}\n%s", smtPrinterSrc)
 	rr.TestFile = src.String()
@@ -537,6 +629,21 @@ func tryReplay(P *Program, v *Verifier, ob *Obligation) *ReplayResult {
 	results := map[int]*Term{}
 	postCells := map[string]*Term{}
 	for _, line := range strings.Split(string(out), "\n") {
+		if strings.HasPrefix(line, "GOVC-PCELL ") {
+			f := strings.SplitN(line, " ", 4)
+			so := dtSorts[f[2]]
+			if so == nil || strings.Contains(f[3], "?") {
+				continue
+			}
+			toks := tokenizeSExp(f[3])
+			sxv, _ := parseSX(toks, 0)
+			t, err := sxToTerm(sxv, so)
+			if err != nil {
+				continue
+			}
+			postCells[fmt.Sprintf("%s#%s", heapName(so), f[1])] = t
+			continue
+		}
 		if strings.HasPrefix(line, "GOVC-CELL ") {
 			f := strings.SplitN(line, " ", 4)
 			so := dtSorts[f[2]]
